@@ -382,6 +382,19 @@ def extract_stubs(header_text):
         for kk, vv in toks:
             if kk == 'op' and vv in ('::', '<<', '.', '->') or kk == 'str':
                 raise ExtractionBreak('%s: token %r not covered by the rule table' % (f.cname, vv))
+        # a call of a virtual member from a default body is dispatched on the dynamic type: its target is unknown here, so its result and its
+        # messages are arbitrary (rule VD).  (No default body of the pinned tree contains one; a stub that forwards to a sibling overload does.)
+        vnames = set(re.findall(r'virtual\s+\w+\s+(\w+)\s*\(', body))
+        out, k = [], 0
+        while k < len(toks):
+            if toks[k][0] == 'id' and toks[k][1] in vnames and k + 1 < len(toks) and toks[k + 1][1] == '(' and (k == 0 or toks[k - 1][1] not in ('.', '->')):
+                pe = match_close(toks, k + 1)
+                out += [('id', 'VF_VIRTUAL_DISPATCH'), ('op', '('), ('op', ')')]
+                k = pe + 1
+                continue
+            out.append(toks[k])
+            k += 1
+        toks = out
         f.body_c = render(toks)
         f.msgs = n
         stubs.append(f)
